@@ -103,3 +103,17 @@ Theorem C08_blocked_only_above_cold_rate : forall c base thr cold period l batch
      (B2R 53 1024 thr / IZR (Z.of_N (if (cold <=? 1)%N then 3%N else cold)) * (1 - / 1099511627776)
         < B2R 53 1024 (fadd (f64_of_N cur) (f64_of_N batch)))%R).
 Proof. exact c08_blocked_only_above_cold_rate. Qed.
+
+(** the ramp: while the tokens stay at or above the warning line and the previous interval passed at least
+    floor(q/c) - demand keeps saturating -, a new second never lowers the allowance (all roundings included) *)
+From SV Require Import Proofs.C08Ramp.
+Theorem C08_saturated_second_never_lowers_allowance : forall w now pq u,
+  is_finite 53 1024 (wu_thr w) = true -> (0 < B2R 53 1024 (wu_thr w))%R ->
+  is_finite 53 1024 (wu_slope w) = true -> (0 <= B2R 53 1024 (wu_slope w))%R ->
+  (wu_warning w <= wu_stored w)%N -> (wu_stored w <= wu_max w)%N ->
+  flt pq (ffloor (fdiv (wu_thr w) (f64_of_N (wu_cold w)))) = false ->
+  sync_token w now pq = WVal u ->
+  (wu_warning w <= wu_stored u)%N ->
+  is_finite 53 1024 (allowed_of w) = true -> is_finite 53 1024 (allowed_of u) = true ->
+  fle (allowed_of w) (allowed_of u) = true.
+Proof. exact c08_saturated_second_never_lowers_allowance. Qed.
